@@ -366,7 +366,9 @@ def expected_tx_seq(ref, t: TxSpec, style):
     if t.a is not None:
         assert ref.cds_tx(t.tx_id) == (t.a, t.b), (ref.cds_tx(t.tx_id), t.a, t.b)
         start = t.a + t.phase
-        e = t.utr3_start(style['utr'])
+        # the ORF ends where the CDS records end (property: "ORF start/end ... agree with the CDS features"),
+        # whichever convention the 3'UTR records follow (GENCODE: UTR begins at the stop codon; Ensembl: after it)
+        e = t.b if t.b < t.L else t.L
         orf = (start, e - (e - start) % 3)
         assert set(ref.sec_tx(t.tx_id)) == set(t.sec)
     desc = f'{t.tx_id}|{t.gene_id}'
